@@ -312,6 +312,7 @@ pub fn run_stress(args: &Args, mut out: Out) {
             }
         }
         let do_refill = r.gen_bool(0.5);
+        let t_phase = Instant::now();
         if do_refill {
             // ---- C12: after any history the full configured number can be serviced simultaneously again ----
             gates.open_all();
@@ -322,7 +323,7 @@ pub fn run_stress(args: &Args, mut out: Out) {
                     let _ = s.shutdown(std::net::Shutdown::Both);
                 }
             }
-            wait_until(10, || count("ConnEnd") >= count("ConnBegin") && count("ConnBegin") >= count("AccAccepted"));
+            wait_until(10, || count("ConnEnd") >= count("ConnBegin") && count("ConnBegin") + count("AccRevokedAfterAccept") >= count("AccAccepted"));
             // a connection whose client gave up while it was still in the listen backlog is accepted (and ended) as
             // soon as a slot is free: wait for every connection that was ever established, so that none of them
             // turns up in the middle of the measurement
@@ -355,6 +356,7 @@ pub fn run_stress(args: &Args, mut out: Out) {
             }
             wait_until(10, || count("ConnEnd") >= count("ConnBegin"));
         }
+        let d_refill = t_phase.elapsed();
         // ---- C13: revocation, at whatever moment the history has reached ----
         emit("RevokeBegin", 0, 0);
         drop(permit);
@@ -411,6 +413,7 @@ pub fn run_stress(args: &Args, mut out: Out) {
                 }
             }
         }
+        let d_probe = t_phase.elapsed();
         // wind down: open all gates, close all clients, wait for the connection tasks to finish
         gates.open_all();
         for c in clients.iter_mut() {
@@ -421,11 +424,14 @@ pub fn run_stress(args: &Args, mut out: Out) {
                 let _ = s.read_to_end(&mut b);
             }
         }
-        wait_until(10, || count("ConnEnd") >= count("ConnBegin") && count("ConnBegin") >= count("AccAccepted"));
+        wait_until(10, || count("ConnEnd") >= count("ConnBegin") && count("ConnBegin") + count("AccRevokedAfterAccept") >= count("AccAccepted"));
         // every ConnEnd is followed by the return of that connection's token
-        let returns_expected = || count("ConnEnd") + count("AccAcceptErr") + count("AccRevokedExit");
+        let returns_expected = || count("ConnEnd") + count("AccAcceptErr") + count("AccRevokedExit") + count("AccRevokedAfterAccept");
         wait_until(5, || count("TokenReturn") >= returns_expected());
         std::thread::sleep(Duration::from_millis(20));
+        if std::env::var_os("VERIF_LOUD").is_some() {
+            eprintln!("sid {sid}: refill {:?} revoke+probe {:?} wind-down {:?}", d_refill, d_probe - d_refill, t_phase.elapsed() - d_probe);
+        }
         let recs = servlin::verif::take();
         out.ev(sid, "Reset", json!({"max": max, "clients": nclients, "refill": do_refill}));
         for rec in recs {
